@@ -445,13 +445,14 @@ func (hs *clientHandshakeState) handshake() error {
 		c.hsState.Store(int32(stateWaiting))
 		c.retransmitTimer.reset()
 
-		// 创建会话
-		if err = hs.createNewSession(); err != nil {
+		// 读取 Flight 6（CCS + Finished），支持超时重传
+		if err = hs.readFinished(c.serverFinished[:]); err != nil {
 			return err
 		}
 
-		// 读取 Flight 6（CCS + Finished），支持超时重传
-		if err = hs.readFinished(c.serverFinished[:]); err != nil {
+		// 会话只在验证了服务端 Finished 之后才写入缓存：
+		// 否则以致命错误结束的握手也会留下会话，并在下次连接时被提供。
+		if err = hs.createNewSession(); err != nil {
 			return err
 		}
 	}
